@@ -109,8 +109,9 @@ CHECKS = {
         note='trusted: vmon/mergespec.py'),
     'C08': dict(
         cat='exploration', ref='5 C08',
-        technique='schedule exploration through MiniDB: two transactions, '
-                  'both commit orders, outcome oracle + read-dependency '
+        technique='schedule exploration through MiniDB: two (or three) '
+                  'transactions, both commit orders, fresh and previously '
+                  'used connections, outcome oracle + read-dependency '
                   'event log',
         text='Two connections run short, shape-adversarial transactions on '
              'the same committed tree and commit one after the other with '
@@ -158,8 +159,9 @@ CHECKS = {
     'C10': dict(
         cat='exploration', ref='5 C10',
         technique='oracle monitor: Python set algebra on the keys, result '
-                  'kind / values / operand-unchanged checks; ASan build for '
-                  'the C functions',
+                  'kind / values / operand-unchanged checks, small and big '
+                  '(300-1300 keys) universes; ASan build for the C '
+                  'functions',
         text='Module functions, operators and in-place forms are applied to '
              'operand pairs of every kind (containers of all shapes, plain '
              'iterables incl. unsorted / duplicate-carrying / one-shot ones, '
@@ -170,8 +172,9 @@ CHECKS = {
     'C11': dict(
         cat='exploration', ref='5 C11',
         technique='oracle monitor: sorted(set(keys)) over size classes on '
-                  'both sides of the sort-algorithm switches; ASan+UBSan '
-                  'build',
+                  'both sides of the sort-algorithm switches, operands of '
+                  'every kind incl. lazy views, subclass instances and '
+                  'containers of another family; ASan+UBSan build',
         text='multiunion over 0..12 operands of every kind, total sizes 0 to '
              '20000 on both sides of the insertion-sort / quicksort / '
              'radix-sort switches, keys over the whole range incl. top-bit '
@@ -221,7 +224,8 @@ CHECKS = {
     'C15': dict(
         cat='exploration', ref='5 C15',
         technique='interleaving monitor: iterator / lazy-sequence steps vs '
-                  'cursor-aimed mutations, step-outcome oracle, crash '
+                  'cursor-aimed mutations (also aimed at cursors that have '
+                  'not been used yet), step-outcome oracle, crash '
                   'detection, ASan+UBSan build',
         text='Live iterators and lazy sequences are stepped while the '
              'container is mutated with operations aimed at the cursor '
@@ -281,7 +285,8 @@ CHECKS = {
         cat='exploration', ref='5 C18',
         technique='tree surgeon + independent walker as oracle: single '
                   'corruptions applied through __setstate__ at every node '
-                  'position',
+                  'position (rebuilt trees, and in place on leaves and '
+                  'interior nodes of live trees)',
         text='Valid trees and their surgeon-rebuilt controls must be '
              'accepted by check() and _check(); for every node position one '
              'corruption per class is applied through __setstate__ and, '
@@ -293,7 +298,8 @@ CHECKS = {
         cat='exploration', ref='5 C19',
         technique='oracle monitor: integer arithmetic model for the '
                   'resolution formula and the cell; two-connection '
-                  'schedules through MiniDB',
+                  'schedules and long-lived sessions through MiniDB (incl. '
+                  'refused registrations, application attributes)',
         text='Length._p_resolveConflict is compared with old + a + b for '
              'integers of every magnitude in both orders; set / change / '
              'call / getstate / setstate / pickle / copy histories follow an '
